@@ -51,7 +51,7 @@ METHODS = ["replacement", "single_pass", "dynamic"]
 
 
 def n_cases(tier):
-    return 480 if tier == "quick" else 3000
+    return 960 if tier == "quick" else 6000
 
 
 def _size(rng, large):
